@@ -6,7 +6,7 @@ What the C01 theorems about the TLS client certificate hinge on: the order of th
 the order of the tests in tls_check_cert() (session id context, rehandshake, verify result, peer certificate), the order
 in which the subject name is searched (emailAddress, then commonName, the second only when the first is absent), the
 `strlen(clients[i]) != email.len` guard in front of strcmp, what is returned on a match, the stage of is_authenticated()
-that consumes the result, and the values X509_V_OK, ETIMEDOUT, EPROTO, ENOMEM, EDONE.
+that consumes the result, what freedata() does to the state, and the values X509_V_OK, ETIMEDOUT, EPROTO, ENOMEM, EDONE.
 Emitted: the numbers and the NID order; the structure is only checked (changed structure = translator error)."""
 import errno, os, re
 from trlib import *
@@ -88,6 +88,27 @@ def gen_tlsverify(repo):
           r'if\s*\(!\(relayclient\s*&\s*1\)\)\s*\{\s*int\s+i\s*=\s*tls_verify\(\);\s*if\s*\(i\s*<\s*0\)\s*return\s+i;\s*'
           r'relayclient\s*=\s*i\s*\?\s*1\s*:\s*relayclient;\s*\}\s*'
           r'return\s*\(relayclient\s*==\s*1\)\s*\?\s*1\s*:\s*0;\s*\}\s*$', ia, 'is_authenticated')
+    # ---------------------------------------------------------------- freedata (what the end of a transaction does to this state)
+    qc = strip_comments(read(repo, 'qsmtpd/qsmtpd.c'))
+    fd = func_body(qc, 'freedata', 'qsmtpd/qsmtpd.c')
+    _need(r'free\(xmitstat\.tlsclient\);\s*xmitstat\.tlsclient\s*=\s*NULL;', fd, 'freedata: release of xmitstat.tlsclient')
+    if len(re.findall(r'tlsclient', fd)) != 2 or 'relayclient' in fd or 'tls_verify' in fd:
+        raise TranslateError('freedata: touches more of the relay state than xmitstat.tlsclient')
+    if len(re.findall(r'xmitstat\.tlsclient\s*=[^=]', qc)) != 1:
+        raise TranslateError('qsmtpd.c: xmitstat.tlsclient is assigned outside freedata()')
+    if len(re.findall(r'\brelayclient\s*=[^=]', qc)) != 1 or not re.search(r'\brelayclient\s*=\s*0;', qc):
+        raise TranslateError('qsmtpd.c: relayclient is assigned at an unexpected place')
+    # nothing else in Qsmtpd writes relayclient or xmitstat.tlsclient: the model's events are the only ones
+    if len(re.findall(r'\brelayclient\s*=[^=]', cm)) != 3 or len(re.findall(r'\brelayclient\s*=[^=]', ia)) != 3:
+        raise TranslateError('commands.c: relayclient is assigned outside is_authenticated()')
+    for root, _dirs, files in os.walk(os.path.join(repo, 'qsmtpd')):
+        for fn in files:
+            rel = os.path.relpath(os.path.join(root, fn), repo)
+            if not fn.endswith('.c') or rel in ('qsmtpd/starttls.c', 'qsmtpd/commands.c', 'qsmtpd/qsmtpd.c'):
+                continue
+            txt = strip_comments(read(repo, rel))
+            if re.search(r'\brelayclient\s*(=[^=]|\+\+|--|[-+|&^]=)', txt) or re.search(r'\.tlsclient\s*=[^=]', txt) or re.search(r'&\s*relayclient\b', txt):
+                raise TranslateError('%s writes relayclient or xmitstat.tlsclient' % rel)
     qh = strip_comments(read(repo, 'include/qsmtpd/qsmtpd.h'))
     _need(r'is_authenticated_client\(void\)\s*\{\s*return\s*\(xmitstat\.authname\.len\s*!=\s*0\)\s*\|\|\s*\(xmitstat\.tlsclient\s*!=\s*NULL\);\s*\}', qh,
           'is_authenticated_client')
